@@ -117,6 +117,7 @@ func opVersionToSpan(typ tokType, op string, lo *Version) (span, error) {
 	// explicitly specified.
 	if lo.IsWildcard() && lo.sys != NuGet {
 		lo.clearPre()
+		lo.isPrerelease = false // The flag, not the tags, is what span.contains looks at.
 	}
 	// A prerelease with <3 numbers is meaningless, except Cargo accepts
 	// them in a constraint specification. Since opVersionToSpan means
